@@ -397,6 +397,27 @@ func VerifH_C14_rerun() {
 	verifrt.Assert(len(a) == 0 && len(b) == 0, "running a prepared workflow leaves its dependency graph untouched")
 }
 
+// C05 / C01: Execute fails to start one of the steps (a provider may refuse). Whichever step it is, Execute
+// returns the error, and the steps it had already started are closed: nothing of the run stays behind.
+func VerifH_C05_start_fails() {
+	t := tWorkflow{
+		steps: []tStep{
+			{id: "a", fields: map[string]any{"input": verifStepInput(vx("input"))}, outcome: map[string]int{}},
+			{id: "b", fields: map[string]any{"input": verifStepInput(vx("input"))}, outcome: map[string]int{}},
+			{id: "c", fields: map[string]any{"input": verifStepInput(vx("input"))}, outcome: map[string]int{}},
+		},
+		outputs: map[string]any{"success": map[any]any{"r": vx("steps", "a", "outputs", "success", "v")}},
+	}
+	t.steps[verifrt.Choice("failing-step", 3)].outcome["start-fails"] = 1
+	ew, run := verifPrepare(t)
+	res := verifExecute(ew, run, t, verifrt.NondetVal("input"))
+	verifrt.Assert(!res.stuck, "Execute returns when a step cannot be started")
+	verifrt.Assert(res.err != nil && res.id == "", "a step that cannot be started makes the run fail with an error")
+	verifrt.Settle()
+	verifrt.Assert(verifrt.LiveGoroutines() == 0, "no goroutine started for the run survives its return")
+	verifrt.Assert(run.deploys == 0, "nothing was deployed")
+}
+
 // C14: two overlapping runs of one prepared workflow with different inputs do not see each other.
 func VerifH_C14_concurrent() {
 	t := verifChain2()
